@@ -291,10 +291,17 @@ theorem gamma_always_of_nil (st : SVal) (h : outerNil st = true) : gamma ⟨.alw
     | some b => simp [outerNil] at h
 
 theorem sound_iff (c : Nat) (onTrue : Bool) (k : Option Nat) (s : State) (σ σ' : MState)
-    (hk : onTrue = true ↔ k = some 0)
+    (hk' : (k = some 0 → onTrue = true) ∧ (k = some 1 → onTrue = false))
     (hd : descr F s σ.1) (hs : stepI F cr k (.iff c) σ σ') :
     descr F (transferInstr F summ onTrue s (.iff c)) σ'.1 := by
-  obtain ⟨h, _, hsem⟩ := hs
+  obtain ⟨h, hk01, hsem⟩ := hs
+  have hk : onTrue = true ↔ k = some 0 := by
+    constructor
+    · intro ht
+      rcases hk01 with h0 | h1
+      · exact h0
+      · have := hk'.2 h1; rw [ht] at this; cases this
+    · exact hk'.1
   rw [h]
   simp only [transferInstr]
   cases hT : ifTarget F c with
@@ -763,7 +770,7 @@ registers (or a deferred nil call is pending), then after any execution of the i
 the transferred state describes the registers. -/
 theorem transfer_sound (i : Instr) (onTrue : Bool) (k : Option Nat) (s : State) (σ σ' : MState)
     (hcr : CrOK summ cr) (hwf : instrOk F i = true)
-    (hk : ∀ c, i = .iff c → (onTrue = true ↔ k = some 0))
+    (hk : ∀ c, i = .iff c → (k = some 0 → onTrue = true) ∧ (k = some 1 → onTrue = false))
     (hd : descrP F s σ) (hs : stepI F cr k i σ σ') :
     descrP F (transferInstr F summ onTrue s i) σ' := by
   rcases hd with hp | hd
@@ -837,6 +844,525 @@ theorem transfer_sound (i : Instr) (onTrue : Bool) (k : Option Nat) (s : State) 
     | ret rs => right; have : σ' = σ := hs; rw [this]; exact hd
     | nop => right; have : σ' = σ := hs; rw [this]; exact hd
 
+/-- a straight-line sequence of instructions (`processBlock`). -/
+theorem run_sound (instrs : List Instr) (onTrue : Bool) (k : Option Nat) (s : State) (σ σ' : MState)
+    (hcr : CrOK summ cr) (hwf : ∀ i ∈ instrs, instrOk F i = true)
+    (hk : ∀ c, .iff c ∈ instrs → (k = some 0 → onTrue = true) ∧ (k = some 1 → onTrue = false))
+    (hd : descrP F s σ) (hr : Run F cr k instrs σ σ') :
+    descrP F (processBlock F summ onTrue instrs s) σ' := by
+  induction hr generalizing s with
+  | nil σ => simpa [processBlock] using hd
+  | cons i is σ σ1 σ2 hstep _ ih =>
+    simp only [processBlock, List.foldl_cons]
+    refine ih _ (fun j hj => hwf j (List.mem_cons_of_mem _ hj)) (fun c hc => hk c (List.mem_cons_of_mem _ hc)) ?_
+    exact transfer_sound F summ cr i onTrue k s σ σ1 hcr (hwf i (List.mem_cons_self ..))
+      (fun c hc => hk c (by rw [hc]; exact List.mem_cons_self ..)) hd hstep
+
+/-! ## phis, edges, paths -/
+
+theorem phis_fold_sound (ps : List (Nat × Nat)) (s0 : State) (env0 : Env) (s : State) (env : Env)
+    (hwf : ∀ p ∈ ps, (F.info p.2).ptr = (F.info p.1).ptr)
+    (h0 : descr F s0 env0) (hd : descr F s env) :
+    descr F ((ps.map (fun p => (p.1, get F s0 p.2))).foldl (fun acc p => set F acc p.1 p.2) s)
+      (ps.foldl (fun e p => setv e p.1 (rd F env0 p.2)) env) := by
+  induction ps generalizing s env with
+  | nil => simpa using hd
+  | cons p ps ih =>
+    simp only [List.map_cons, List.foldl_cons]
+    apply ih
+    · intro q hq; exact hwf q (List.mem_cons_of_mem _ hq)
+    refine descr_set_opt F s env p.1 (get F s0 p.2) (rd F env0 p.2) hd ?_
+    intro c hc
+    have hg := descr_rd F s0 env0 p.2 c h0 hc
+    refine ⟨fun _ => hg, ?_⟩
+    intro hp
+    have hp2 : (F.info p.2).ptr = false := by rw [hwf p (List.mem_cons_self ..)]; exact hp
+    rw [get_nonptr F s0 p.2 hp2] at hg
+    exact hg
+
+/-- **phis_sound**: `processPhis` (all edge values read before any phi is set) describes the
+registers after the parallel evaluation of the phis. -/
+theorem phis_sound (instrs : List Instr) (i : Nat) (s : State) (env : Env)
+    (hwf : ∀ j ∈ instrs, instrOk F j = true) (hd : descr F s env) :
+    descr F (processPhis F instrs i s) (phiStep F env (phiPairs i instrs)) := by
+  unfold processPhis phiStep
+  refine phis_fold_sound F (phiPairs i instrs) s env s env ?_ hd hd
+  intro p hp
+  obtain ⟨es, hmem, he⟩ := phiPairs_mem i instrs p hp
+  have := hwf _ hmem
+  simp only [instrOk, Bool.true_and, List.all_eq_true, beq_iff_eq] at this
+  exact this p.2 he
+
+/-- **edge_sound**: the transfer function handed to `dense.Forward` is sound for the `k`-th
+out-edge of block `b`. -/
+theorem edge_sound (b k : Nat) (s : State) (σ : MState) (env1 : Env) (p1 : Bool)
+    (hcr : CrOK summ cr) (hwf : wfFunc F = true)
+    (hd : descrP F s σ) (hr : Run F cr (some k) (F.block b).instrs σ (env1, p1)) :
+    descrP F (edgeTransfer F summ b k s)
+      (phiStep F env1 (phiPairs (predIndex (F.block ((F.block b).succs.getD k 0)).preds b)
+        (F.block ((F.block b).succs.getD k 0)).instrs), p1) := by
+  unfold edgeTransfer
+  have h1 := run_sound F summ cr (F.block b).instrs ((F.block b).succs.getD k 0 == (F.block b).succs.getD 0 0)
+    (some k) s σ (env1, p1) hcr (fun i hi => wf_instrOk F hwf b i hi) ?_ hd hr
+  · rcases h1 with h1 | h1
+    · left; exact h1
+    · right
+      exact phis_sound F _ _ _ env1 (fun j hj => wf_instrOk F hwf _ j hj) h1
+  · intro c hc
+    constructor
+    · intro hk0
+      have : k = 0 := by simpa using hk0
+      subst this; simp
+    · intro hk1
+      have : k = 1 := by simpa using hk1
+      subst this
+      have := wf_if_succs F hwf b c hc
+      simp only [beq_eq_false_iff_ne, ne_eq]
+      exact fun h => this h.symm
+
+theorem entry_sound (env : Env) (he : entryOK F env) : descr F (entryState F) env := by
+  intro v c hv
+  rw [getRaw_entry]
+  have hk := he v
+  by_cases hp : (F.info v).ptr = false
+  · simp only [hp, if_true]
+    cases hkind : (F.info v).kind <;> simp only [hkind] at hk
+    case param => obtain ⟨x, hx, hok⟩ := hk; rw [hx] at hv; cases hv; exact gammaC_np_of_okS F v x hok hp
+    case builtin => rw [hk] at hv; cases hv; exact ⟨rfl, trivial⟩
+    case func => rw [hk] at hv; cases hv; exact ⟨rfl, trivial⟩
+    case global => rw [hk] at hv; cases hv; exact ⟨rfl, trivial⟩
+    case constnil => obtain ⟨x, hx, hok, _⟩ := hk; rw [hx] at hv; cases hv; exact gammaC_np_of_okS F v x hok hp
+    case constz => obtain ⟨x, hx, hok, _⟩ := hk; rw [hx] at hv; cases hv; exact gammaC_np_of_okS F v x hok hp
+    case constnz => obtain ⟨x, hx, hok, _⟩ := hk; rw [hx] at hv; cases hv; exact gammaC_np_of_okS F v x hok hp
+    case constother => obtain ⟨x, hx, hok⟩ := hk; rw [hx] at hv; cases hv; exact gammaC_np_of_okS F v x hok hp
+    all_goals (rw [hk] at hv; cases hv)
+  · have hp' : (F.info v).ptr = true := by simpa using hp
+    simp only [hp', Bool.true_eq_false, if_false]
+    cases hkind : (F.info v).kind <;> simp only [hkind] at hk <;> simp only [entryVal, hp', Bool.true_eq_false, if_false, hkind]
+    case param => obtain ⟨x, hx, _⟩ := hk; rw [hx] at hv; cases hv; exact gamma_top x
+    case builtin => rw [hk] at hv; cases hv; exact ⟨rfl, trivial⟩
+    case func => rw [hk] at hv; cases hv; exact ⟨rfl, trivial⟩
+    case global => rw [hk] at hv; cases hv; exact ⟨rfl, trivial⟩
+    case constnil =>
+      obtain ⟨x, hx, hok, hz⟩ := hk; rw [hx] at hv; cases hv
+      cases x with
+      | np => simp [okS, flagsOf, hp'] at hok
+      | ptr n => simp only [isZero] at hz; subst hz; exact ⟨rfl, trivial⟩
+      | iface h => simp only [isZero] at hz; subst hz; exact ⟨rfl, trivial⟩
+    case constz =>
+      obtain ⟨x, hx, hok, hz⟩ := hk; rw [hx] at hv; cases hv
+      cases x with
+      | np => simp [okS, flagsOf, hp'] at hok
+      | ptr n => simp only [isZero] at hz; subst hz; exact ⟨rfl, trivial⟩
+      | iface h => simp only [isZero] at hz; subst hz; exact ⟨rfl, trivial⟩
+    case constnz =>
+      obtain ⟨x, hx, hok, hn⟩ := hk; rw [hx] at hv; cases hv
+      refine ⟨hn, ?_⟩
+      cases x with
+      | iface h => cases h <;> trivial
+      | _ => trivial
+    case constother => obtain ⟨x, hx, _⟩ := hk; rw [hx] at hv; cases hv; exact gamma_top x
+    all_goals (rw [hk] at hv; cases hv)
+
+/-- **checkPost_sound**: what the executable post-fixpoint test establishes. -/
+theorem checkPost_sound (sol : Sol) (h : checkPost F summ sol = true) :
+    leState (entryState F) (sol.at 0) = true ∧
+    ∀ b k, b < F.blocks.length → k < (F.block b).succs.length →
+      leState (edgeTransfer F summ b k (sol.at b)) (sol.at ((F.block b).succs.getD k 0)) = true := by
+  simp only [checkPost, Bool.and_eq_true, List.all_eq_true, List.mem_range] at h
+  exact ⟨h.1, fun b k hb hk => h.2 b hb k hk⟩
+
+/-- **path_sound**: every machine state in which an execution reaches block `b` is described
+by ANY post-fixpoint of the flow equations at `b`. -/
+theorem path_sound (sol : Sol) (hcr : CrOK summ cr) (hwf : wfFunc F = true)
+    (hpost : checkPost F summ sol = true) (b : Nat) (σ : MState) (hr : Reach F cr b σ) :
+    descrP F (sol.at b) σ := by
+  obtain ⟨hentry, hedge⟩ := checkPost_sound F summ sol hpost
+  induction hr with
+  | entry env he => right; exact descr_le F _ _ env hentry (entry_sound F env he)
+  | recover r _ _ => right; intro v c hv; cases hv
+  | edge b k σ env1 p1 _ hk hrun ih =>
+    have hb : b < F.blocks.length := by
+      by_cases hb : b < F.blocks.length
+      · exact hb
+      · rw [block_of_ge F b (by omega)] at hk; simp at hk
+    have h1 := edge_sound F summ cr b k (sol.at b) σ env1 p1 hcr hwf ih hrun
+    rcases h1 with h1 | h1
+    · left; exact h1
+    · right; exact descr_le F _ _ _ (hedge b k hb hk) h1
+
 end instr
+
+/-! ## results -/
+
+/-- what the driver establishes per function (`cert=1`): the summary is the bail-out default,
+or `retNilness` of a post-fixpoint (computed with the same summaries) of a well-formed function. -/
+def Certified (F : Func) (summ : Summ) (res : List VN) : Prop :=
+  res = defaultSumm F.rf ∨
+  (wfFunc F = true ∧ ∃ sol, checkPost F summ sol = true ∧ retNilness F summ sol = res)
+
+theorem fold_ret_sound (F : Func) (n j : Nat) (x : SVal) (sf : Nat × List Nat → State)
+    (l : List (Nat × List Nat)) (acc : List VN) (hj : j < n)
+    (h : gamma (acc.getD j VN.bot) x ∨ ∃ br ∈ l, gamma (get F (sf br) (br.2.getD j 0)) x) :
+    gamma ((l.foldl (fun acc br =>
+      (List.range n).map (fun i => merge (acc.getD i VN.bot) (get F (sf br) (br.2.getD i 0)))) acc).getD j VN.bot) x := by
+  induction l generalizing acc with
+  | nil =>
+    rcases h with h | ⟨br, hbr, _⟩
+    · simpa using h
+    · cases hbr
+  | cons br0 rest ih =>
+    simp only [List.foldl_cons]
+    apply ih
+    rcases h with h | ⟨br, hbr, hg⟩
+    · left; rw [range_map_getD n j _ _ hj]; exact gamma_merge_left _ _ _ h
+    · rcases List.mem_cons.1 hbr with hb | hb
+      · subst hb; left; rw [range_map_getD n j _ _ hj]; exact gamma_merge_right _ _ _ hg
+      · right; exact ⟨br, hb, hg⟩
+
+theorem defaultSumm_sound (rf : List (Bool × Bool)) (rs : List SVal)
+    (hty : ∀ (j : Nat) x, rs[j]? = some x → okS (rf.getD j (false, false)) x) :
+    Describes (defaultSumm rf) rs := by
+  intro j r x hr hx
+  have hok := hty j x hx
+  simp only [defaultSumm, List.getElem?_map] at hr
+  cases hrf : rf[j]? with
+  | none => simp [hrf] at hr
+  | some fl =>
+    simp only [hrf, Option.map_some, Option.some.injEq] at hr
+    subst hr
+    simp only [List.getD_eq_getElem?_getD, hrf, Option.getD_some] at hok
+    split
+    · exact gamma_top x
+    · next hp =>
+      have := okS_nonptr fl x (by simpa using hp) hok
+      subst this; exact ⟨rfl, trivial⟩
+
+/-- one function: every tuple it can return is described by its certified summary. -/
+theorem func_sound (F : Func) (summ : Summ) (cr : Nat → List SVal → Prop) (res : List VN)
+    (hcr : CrOK summ cr) (hc : Certified F summ res) (rs : List SVal) (he : FuncExec F cr rs) :
+    Describes res rs := by
+  obtain ⟨b, σ, env1, rvs, hreach, hrun, hb, hlast, hlen, hrs⟩ := he
+  rcases hc with hdef | ⟨hwf, sol, hpost, hret⟩
+  · subst hdef
+    exact defaultSumm_sound F.rf rs (fun j x hx => (hrs j x hx).2)
+  · subst hret
+    have hp := path_sound F summ cr sol hcr hwf hpost b σ hreach
+    have h1 := run_sound F summ cr (F.block b).instrs false none (sol.at b) σ (env1, false) hcr
+      (fun i hi => wf_instrOk F hwf b i hi) (fun c _ => And.intro (fun h => absurd h (by simp)) (fun h => absurd h (by simp))) hp hrun
+    have hd1 : descr F (processBlock F summ false (F.block b).instrs (sol.at b)) env1 := by
+      rcases h1 with h1 | h1
+      · cases h1
+      · exact h1
+    intro j r x hr hx
+    obtain ⟨hrd, hok⟩ := hrs j x hx
+    have hj : j < F.rf.length := by
+      rw [← hlen]
+      exact (List.getElem?_eq_some_iff.1 hx).1
+    have hgx : gamma (get F (processBlock F summ false (F.block b).instrs (sol.at b)) (rvs.getD j 0)) x :=
+      descr_rdS F _ env1 _ x hd1 hrd
+    have hmem : (b, rvs) ∈ F.returns := by
+      simp only [Func.returns, List.mem_filterMap, List.mem_range]
+      exact ⟨b, hb, by simp [hlast]⟩
+    simp only [retNilness] at hr
+    rw [List.getElem?_map, List.getElem?_range hj] at hr
+    simp only [Option.map_some, Option.some.injEq] at hr
+    subst hr
+    split
+    · next hp' =>
+      have := okS_nonptr _ x (by simpa using hp') hok
+      subst this; exact ⟨rfl, trivial⟩
+    · apply gamma_normalize
+      exact fold_ret_sound F F.rf.length j x
+        (fun br => processBlock F summ false (F.block br.1).instrs (sol.at br.1)) F.returns _ hj
+        (Or.inr ⟨(b, rvs), hmem, hgx⟩)
+
+/-- **result_sound** (interprocedural, any call depth, recursion included): if every function
+with a body has a certified summary and the summaries of body-less functions describe what
+they return, then every tuple of values any function returns in a terminating execution is
+described by its summary. -/
+theorem result_sound (P : Nat → Option Func) (ext : Nat → List SVal → Prop) (summ : Summ)
+    (hext : ∀ g rs, ext g rs → Describes (summ g) rs)
+    (hcert : ∀ g F, P g = some F → Certified F summ (summ g)) :
+    ∀ n g rs, ExecN P ext n g rs → Describes (summ g) rs := by
+  intro n
+  induction n with
+  | zero => intro g rs h; exact hext g rs h
+  | succ n ih =>
+    intro g rs h
+    rcases h with h | ⟨F, hF, hexec⟩
+    · exact hext g rs h
+    · exact func_sound F summ (ExecN P ext n) (summ g) (fun g' rs' h' => ih g' rs' h') (hcert g F hF) rs hexec
+
+/-- **describes_mono**: a classification that is pointwise equal to or coarser than a sound one
+(in the order of `lattice.Merge`) is sound. This is the relation the check demands between the
+model's `retNilness` and the real `Result.Nilness`. -/
+theorem describes_mono (a b : List VN) (rs : List SVal)
+    (hle : ∀ (j : Nat) y, b[j]? = some y → ∃ x, a[j]? = some x ∧ leVN x y = true)
+    (h : Describes a rs) : Describes b rs := by
+  intro j y v hy hv
+  obtain ⟨x, hx, hxy⟩ := hle j y hy
+  exact gamma_leVN x y v hxy (h j x v hx hv)
+
+example : Describes [⟨.maybe, .maybe⟩] [.iface (some true)] :=
+  describes_mono [⟨.always, .never⟩] _ _
+    (by
+      intro j y hy
+      match j with
+      | 0 => simp only [List.getElem?_cons_zero, Option.some.injEq] at hy; subst hy; exact ⟨_, rfl, by decide⟩
+      | n + 1 => simp at hy)
+    (by
+      intro j r x hr hx
+      match j with
+      | 0 =>
+        simp only [List.getElem?_cons_zero, Option.some.injEq] at hr hx
+        subst hr; subst hx; exact ⟨rfl, rfl⟩
+      | n + 1 => simp at hr)
+
+/-- a result classified NeverNil is never nil; for an interface result with Inner = NeverNil the
+held value is never nil. -/
+theorem result_sound_never (P : Nat → Option Func) (ext : Nat → List SVal → Prop) (summ : Summ)
+    (hext : ∀ g rs, ext g rs → Describes (summ g) rs)
+    (hcert : ∀ g F, P g = some F → Certified F summ (summ g))
+    (g j : Nat) (r : VN) (rs : List SVal) (x : SVal)
+    (hr : (summ g)[j]? = some r) (hexec : Exec P ext g rs) (hx : rs[j]? = some x) :
+    (r.outer = .never → outerNil x = false) ∧
+    (r.inner = .never → ∀ h, x = .iface (some h) → h = false) := by
+  obtain ⟨n, hn⟩ := hexec
+  have hg := result_sound P ext summ hext hcert n g rs hn j r x hr hx
+  constructor
+  · intro ho; have := hg.1; rw [ho] at this; exact this
+  · intro hi h hxe; subst hxe; have := hg.2; simp only [hi] at this; exact this
+
+/-- a result classified AlwaysNil is always nil; for an interface result with Inner = AlwaysNil
+the held value (if the interface is not nil) is always nil. -/
+theorem result_sound_always (P : Nat → Option Func) (ext : Nat → List SVal → Prop) (summ : Summ)
+    (hext : ∀ g rs, ext g rs → Describes (summ g) rs)
+    (hcert : ∀ g F, P g = some F → Certified F summ (summ g))
+    (g j : Nat) (r : VN) (rs : List SVal) (x : SVal)
+    (hr : (summ g)[j]? = some r) (hexec : Exec P ext g rs) (hx : rs[j]? = some x) :
+    (r.outer = .always → outerNil x = true) ∧
+    (r.inner = .always → ∀ h, x = .iface (some h) → h = true) := by
+  obtain ⟨n, hn⟩ := hexec
+  have hg := result_sound P ext summ hext hcert n g rs hn j r x hr hx
+  constructor
+  · intro ho; have := hg.1; rw [ho] at this; exact this
+  · intro hi h hxe; subst hxe; have := hg.2; simp only [hi] at this; exact this
+
+/-- **sa4023_sound**: when SA4023 reports `f() == nil` as never true (`Result.Nilness(f, j).Outer
+== NeverNil` for an interface result), the compared value is not nil in any terminating
+execution of `f`, i.e. the comparison is indeed false (and `!=` true). -/
+theorem sa4023_sound (P : Nat → Option Func) (ext : Nat → List SVal → Prop) (summ : Summ)
+    (hext : ∀ g rs, ext g rs → Describes (summ g) rs)
+    (hcert : ∀ g F, P g = some F → Certified F summ (summ g))
+    (g j : Nat) (r : VN) (rs : List SVal) (x : SVal)
+    (hr : (summ g)[j]? = some r) (hflag : sa4023Flags (true, true) (some r) = true)
+    (hexec : Exec P ext g rs) (hx : rs[j]? = some x) :
+    outerNil x = false := by
+  have ho : r.outer = .never := by
+    simp only [sa4023Flags, resultNilness, normalize, beq_iff_eq, Bool.true_eq_false, if_false] at hflag
+    split at hflag
+    · cases hflag
+    · exact hflag
+  exact (result_sound_never P ext summ hext hcert g j r rs x hr hexec hx).1 ho
+
+
+
+/-! ## non-vacuity: the hypotheses of every theorem above are met by concrete functions -/
+namespace Ex
+
+/-- `func f(p *int) *int { if p == nil { p = new(int) }; return p }` -/
+def F2 : Func :=
+  { hasObj := true, hasBlocks := true, rf := [(true, false)], nparams := 1,
+    vals := [⟨.param, true, false⟩, ⟨.constnil, true, false⟩, ⟨.instr, false, false⟩, ⟨.instr, true, false⟩,
+             ⟨.instr, true, false⟩],
+    blocks := [⟨[.binop 2 .eq 0 1, .iff 2], [1, 2], []⟩, ⟨[.alloc 3, .nop], [2], [0]⟩,
+               ⟨[.phi 4 [0, 3], .ret [4]], [], [0, 1]⟩] }
+
+def noCalls : Nat → List SVal → Prop := fun _ _ => False
+def noExt : Nat → List SVal → Prop := fun _ _ => False
+def summ2 : Summ := fun g => if g = 0 then [⟨.maybe, .never⟩] else []
+def P2 : Nat → Option Func := fun g => if g = 0 then some F2 else none
+
+theorem crOK_noCalls (summ : Summ) : CrOK summ noCalls := by intro g rs h; cases h
+
+/-- entry registers: `p` is a non-nil pointer. -/
+def env0 : Env := fun v =>
+  if v = 0 then some (.sc (.ptr false)) else if v = 1 then some (.sc (.ptr true)) else none
+
+theorem env0_ok : entryOK F2 env0 := by
+  intro v
+  match v with
+  | 0 => exact ⟨.ptr false, rfl, ⟨rfl, rfl⟩⟩
+  | 1 => exact ⟨.ptr true, rfl, ⟨rfl, rfl⟩, rfl⟩
+  | 2 => rfl
+  | 3 => rfl
+  | 4 => rfl
+  | n + 5 => rfl
+
+def env1 : Env := setv env0 2 (some (.sc .np))
+
+/-- block 0 on the false branch of `p == nil`. -/
+theorem run_b0 (cr : Nat → List SVal → Prop) :
+    Run F2 cr (some 1) (F2.block 0).instrs (env0, false) (env1, false) := by
+  refine Run.cons _ _ _ (env1, false) _ ?_ (Run.cons _ _ _ _ _ ?_ (Run.nil _))
+  · exact ⟨rfl, rfl⟩
+  · refine ⟨rfl, Or.inr rfl, ?_⟩
+    have : ifTarget F2 2 = some (0, .eq) := by decide
+    rw [this]
+    exact ⟨.ptr false, rfl, by simp [outerNil]⟩
+
+def env2 : Env := phiStep F2 env1 (phiPairs (predIndex (F2.block 2).preds 0) (F2.block 2).instrs)
+
+theorem reach_b2 (cr : Nat → List SVal → Prop) : Reach F2 cr 2 (env2, false) :=
+  Reach.edge 0 1 (env0, false) env1 false (Reach.entry env0 env0_ok) (by decide) (run_b0 cr)
+
+theorem env2_4 : env2 4 = some (.sc (.ptr false)) := by
+  simp [env2, phiStep, phiPairs, predIndex, F2, Func.block, setv, rd, env1, env0]
+
+theorem run_b2 (cr : Nat → List SVal → Prop) : Run F2 cr none (F2.block 2).instrs (env2, false) (env2, false) :=
+  Run.cons _ _ _ (env2, false) _ rfl (Run.cons _ _ _ (env2, false) _ rfl (Run.nil _))
+
+theorem exec_F2 (cr : Nat → List SVal → Prop) : FuncExec F2 cr [.ptr false] := by
+  refine ⟨2, (env2, false), env2, [4], reach_b2 cr, run_b2 cr, by decide, rfl, rfl, ?_⟩
+  intro j x hx
+  match j with
+  | 0 =>
+    simp only [List.getElem?_cons_zero, Option.some.injEq] at hx
+    subst hx
+    exact ⟨by simp [rdS, rd, env2_4], ⟨rfl, rfl⟩⟩
+  | n + 1 => simp at hx
+
+theorem cert_F2 : Certified F2 summ2 [⟨.maybe, .never⟩] :=
+  Or.inr ⟨by decide, solve F2 summ2, by decide, by decide⟩
+
+theorem hcert2 : ∀ g F, P2 g = some F → Certified F summ2 (summ2 g) := by
+  intro g F h
+  by_cases hg : g = 0
+  · subst hg
+    have : F = F2 := by simpa [P2] using h.symm
+    subst this; exact cert_F2
+  · simp [P2, hg] at h
+
+theorem exec2 : Exec P2 noExt 0 [.ptr false] := ⟨1, Or.inr ⟨F2, rfl, exec_F2 _⟩⟩
+
+-- transfer_sound: the `alloc` of block 1 on the entry state
+example : descrP F2 (transferInstr F2 summ2 false (entryState F2) (.alloc 3))
+    (setv env0 3 (some (.sc (.ptr false))), false) :=
+  transfer_sound F2 summ2 noCalls (.alloc 3) false none (entryState F2) (env0, false) _ (crOK_noCalls _)
+    (by decide) (by intro c h; cases h) (Or.inr (entry_sound F2 env0 env0_ok)) ⟨⟨rfl, rfl⟩, rfl⟩
+
+-- phis_sound: the phi of block 2 on the edge from block 0
+example : descr F2 (processPhis F2 (F2.block 2).instrs 0 (entryState F2))
+    (phiStep F2 env0 (phiPairs 0 (F2.block 2).instrs)) :=
+  phis_sound F2 (F2.block 2).instrs 0 (entryState F2) env0 (by decide) (entry_sound F2 env0 env0_ok)
+
+-- edge_sound: the false edge of `if p == nil`
+example : descrP F2 (edgeTransfer F2 summ2 0 1 (entryState F2)) (env2, false) :=
+  edge_sound F2 summ2 noCalls 0 1 (entryState F2) (env0, false) env1 false (crOK_noCalls _) (by decide)
+    (Or.inr (entry_sound F2 env0 env0_ok)) (run_b0 _)
+
+-- checkPost_sound / path_sound: the solver's output is a post-fixpoint and describes the state at block 2
+example : leState (entryState F2) ((solve F2 summ2).at 0) = true :=
+  (checkPost_sound F2 summ2 (solve F2 summ2) (by decide)).1
+
+example : descrP F2 ((solve F2 summ2).at 2) (env2, false) :=
+  path_sound F2 summ2 noCalls (solve F2 summ2) (crOK_noCalls _) (by decide) (by decide) 2 _ (reach_b2 _)
+
+-- result_sound / result_sound_never: f(non-nil) returns a non-nil pointer, as classified
+example : Describes (summ2 0) [.ptr false] :=
+  result_sound P2 noExt summ2 (by intro g rs h; cases h) hcert2 1 0 _ (Or.inr ⟨F2, rfl, exec_F2 _⟩)
+
+example : outerNil (.ptr false) = false :=
+  (result_sound_never P2 noExt summ2 (by intro g rs h; cases h) hcert2 0 0 ⟨.maybe, .never⟩ _ _ rfl exec2 rfl).1 rfl
+
+/-- `func g() *int { return nil }` -/
+def F3 : Func :=
+  { hasObj := true, hasBlocks := true, rf := [(true, false)], nparams := 0,
+    vals := [⟨.constnil, true, false⟩], blocks := [⟨[.ret [0]], [], []⟩] }
+def summ3 : Summ := fun g => if g = 0 then [⟨.maybe, .always⟩] else []
+def P3 : Nat → Option Func := fun g => if g = 0 then some F3 else none
+def env3 : Env := fun v => if v = 0 then some (.sc (.ptr true)) else none
+
+theorem env3_ok : entryOK F3 env3 := by
+  intro v
+  match v with
+  | 0 => exact ⟨.ptr true, rfl, ⟨rfl, rfl⟩, rfl⟩
+  | n + 1 => rfl
+
+theorem exec_F3 (cr : Nat → List SVal → Prop) : FuncExec F3 cr [.ptr true] := by
+  refine ⟨0, (env3, false), env3, [0], Reach.entry env3 env3_ok, Run.cons _ _ _ (env3, false) _ rfl (Run.nil _),
+    by decide, rfl, rfl, ?_⟩
+  intro j x hx
+  match j with
+  | 0 =>
+    simp only [List.getElem?_cons_zero, Option.some.injEq] at hx
+    subst hx
+    exact ⟨rfl, ⟨rfl, rfl⟩⟩
+  | n + 1 => simp at hx
+
+theorem hcert3 : ∀ g F, P3 g = some F → Certified F summ3 (summ3 g) := by
+  intro g F h
+  by_cases hg : g = 0
+  · subst hg
+    have : F = F3 := by simpa [P3] using h.symm
+    subst this
+    exact Or.inr ⟨by decide, solve F3 summ3, by decide, by decide⟩
+  · simp [P3, hg] at h
+
+-- result_sound_always
+example : outerNil (.ptr true) = true :=
+  (result_sound_always P3 noExt summ3 (by intro g rs h; cases h) hcert3 0 0 ⟨.maybe, .always⟩ [.ptr true] _ rfl
+    ⟨1, Or.inr ⟨F3, rfl, exec_F3 _⟩⟩ rfl).1 rfl
+
+/-- `func h() error { return (*E)(nil) }`: SA4023 reports `h() == nil`. -/
+def F4 : Func :=
+  { hasObj := true, hasBlocks := true, rf := [(true, true)], nparams := 0,
+    vals := [⟨.constnil, true, false⟩, ⟨.instr, true, true⟩],
+    blocks := [⟨[.makeiface 1 0, .ret [1]], [], []⟩] }
+def summ4 : Summ := fun g => if g = 0 then [⟨.always, .never⟩] else []
+def P4 : Nat → Option Func := fun g => if g = 0 then some F4 else none
+def env4 : Env := fun v => if v = 0 then some (.sc (.ptr true)) else none
+def env4' : Env := setv env4 1 (some (.sc (.iface (some true))))
+
+theorem env4_ok : entryOK F4 env4 := by
+  intro v
+  match v with
+  | 0 => exact ⟨.ptr true, rfl, ⟨rfl, rfl⟩, rfl⟩
+  | 1 => rfl
+  | n + 2 => rfl
+
+theorem exec_F4 (cr : Nat → List SVal → Prop) : FuncExec F4 cr [.iface (some true)] := by
+  refine ⟨0, (env4, false), env4', [1], Reach.entry env4 env4_ok, ?_, by decide, rfl, rfl, ?_⟩
+  · refine Run.cons _ _ _ (env4', false) _ ?_ (Run.cons _ _ _ (env4', false) _ rfl (Run.nil _))
+    exact ⟨.ptr true, rfl, by intro h; simp, ⟨rfl, rfl⟩, rfl⟩
+  · intro j x hx
+    match j with
+    | 0 =>
+      simp only [List.getElem?_cons_zero, Option.some.injEq] at hx
+      subst hx
+      exact ⟨rfl, ⟨rfl, rfl⟩⟩
+    | n + 1 => simp at hx
+
+theorem hcert4 : ∀ g F, P4 g = some F → Certified F summ4 (summ4 g) := by
+  intro g F h
+  by_cases hg : g = 0
+  · subst hg
+    have : F = F4 := by simpa [P4] using h.symm
+    subst this
+    exact Or.inr ⟨by decide, solve F4 summ4, by decide, by decide⟩
+  · simp [P4, hg] at h
+
+-- sa4023_sound: the reported comparison `h() == nil` is false: h returns a non-nil interface (holding a nil pointer)
+example : outerNil (.iface (some true)) = false :=
+  sa4023_sound P4 noExt summ4 (by intro g rs h; cases h) hcert4 0 0 ⟨.always, .never⟩ [.iface (some true)] _ rfl
+    (by decide) ⟨1, Or.inr ⟨F4, rfl, exec_F4 _⟩⟩ rfl
+
+-- result_sound_always (inner): the value h's result holds is nil
+example : (true : Bool) = true :=
+  (result_sound_always P4 noExt summ4 (by intro g rs h; cases h) hcert4 0 0 ⟨.always, .never⟩ [.iface (some true)] _ rfl
+    ⟨1, Or.inr ⟨F4, rfl, exec_F4 _⟩⟩ rfl).2 rfl true rfl
+
+end Ex
 
 end Verif.C15
